@@ -123,7 +123,7 @@ def c06(tier):
 def c13(tier):
     run = Run("C13", tier, "model_checking")
     cf = [{"k": "WelfordRolling"}, {"k": "Drawdown"}, {"k": "LnReturn"}]
-    L = 7 if tier == "quick" else 9
+    L = 7 if tier == "quick" else 8
     sc = {"prop": "C13", "cfgs": cf, "alphabet": [1, 2, 4, 7], "unit": 1, "maxlen": L, "extras": True}
     run.submit(p1_job, "roll-int", "MC_Def", sc)
     with_model(run, "roll-int", dict(sc, maxlen=L - 1))
